@@ -27,6 +27,8 @@ class CoopLock(object):
             # outside scheduled threads (setup code): plain semantics
             self.owner = "main"
             return True
+        if not blocking and self.owner is not None:
+            return False
         while self.owner is not None:
             self.sched.block_on(me, self)
         self.owner = me
